@@ -388,6 +388,24 @@ fn random_trace(mode: &str, rng: &mut SmallRng, steps: usize) -> Sim {
                     sim.exec(&json!({"op": "fault", "e": en(i), "kind": k}));
                 }
             }
+            // probe the window in which the connection is ending: let the task notice (it starts winding down and may
+            // suspend there), then attempt the operations an application may have in flight on that endpoint
+            if rng.random_range(0..2) == 0 {
+                for _ in 0..rng.random_range(1..=2) {
+                    sim.exec(&json!({"op": "task", "e": en(i), "gr": pick(rng, &[0, 1]), "gs": 1}));
+                }
+                let hs: Vec<u32> = sim.eps[i].streams.keys().copied().collect();
+                for h in hs {
+                    match rng.random_range(0..3) {
+                        0 => { sim.exec(&json!({"op": "read", "e": en(i), "h": h, "max": 8})); }
+                        1 => { sim.exec(&json!({"op": "write", "e": en(i), "h": h, "len": 1})); }
+                        _ => {
+                            sim.exec(&json!({"op": "read", "e": en(i), "h": h, "max": 8, "via": "buf"}));
+                            sim.exec(&json!({"op": "write", "e": en(i), "h": h, "len": 1}));
+                        }
+                    }
+                }
+            }
             continue;
         }
         // candidate operations with weights
@@ -544,6 +562,21 @@ fn random_trace(mode: &str, rng: &mut SmallRng, steps: usize) -> Sim {
                         let len = ev["len"].as_u64().unwrap() as usize;
                         if !intent.writes.iter().any(|w| w.0 == i && w.1 == h) {
                             intent.writes.push((i, h, len));
+                        }
+                    }
+                }
+                "drop_mux" => {
+                    // the same probe as after a fault: streams outlive the Multiplexor; read / write them while the task winds down
+                    if rng.random_range(0..2) == 0 {
+                        let i = if chosen["e"] == "A" { 0 } else { 1 };
+                        sim.exec(&json!({"op": "task", "e": en(i), "gr": pick(rng, &[0, 1]), "gs": 1}));
+                        let hs: Vec<u32> = sim.eps[i].streams.keys().copied().collect();
+                        for h in hs {
+                            if rng.random_range(0..2) == 0 {
+                                sim.exec(&json!({"op": "read", "e": en(i), "h": h, "max": 8}));
+                            } else {
+                                sim.exec(&json!({"op": "write", "e": en(i), "h": h, "len": 1}));
+                            }
                         }
                     }
                 }
